@@ -190,6 +190,9 @@ pub enum BackgroundErrorReason {
 	MemtablaFlush,
 	Compaction,
 	ManifestWrite,
+	/// Appending to / syncing the commit log failed: the active segment may end
+	/// in a partial record
+	WalWrite,
 }
 
 /// Reason for write stall - used for logging and metrics.
@@ -252,6 +255,9 @@ impl BackgroundErrorHandler {
 
 			// Manifest write I/O is fatal
 			(BackgroundErrorReason::ManifestWrite, Error::Io(_)) => ErrorSeverity::FatalError,
+
+			// A failed commit-log write leaves the segment in an unknown state
+			(BackgroundErrorReason::WalWrite, _) => ErrorSeverity::FatalError,
 
 			// Default: treat as hard error for safety
 			_ => ErrorSeverity::HardError,
